@@ -135,7 +135,8 @@ let handle (line : string) : string =
        | l ->
            let g' = List.map rule_of l in
            let fuel = nat_of_int 200 in
-           if ochk_grammar !grammar g' fuel then "VALID"
+           if ochk_grammar !grammar g' fuel && ochk_skip !grammar g' fuel then "VALID"
+           else if ochk_grammar !grammar g' fuel then "INVALID SKIP rule"
            else begin
              let bad = List.filter (fun r' -> int_of_n r'.r_name <> 2 && not (ochk_rule !grammar g' fuel r')) g' in
              "INVALID " ^ String.concat "," (List.map (fun r' -> string_of_int (int_of_n r'.r_name)) bad)
